@@ -325,7 +325,9 @@ func runC11Request(c *fw.Ctx, id string, i int) {
 		return
 	}
 	defer env.close()
-	env.modelFor = func(k int, e *simEnv) *pathModel { return flowPath(k, e, 4, true, time.Duration(2+k*2)*time.Millisecond) }
+	env.modelFor = func(k int, e *simEnv) *pathModel {
+		return flowPath(k, e, 4, true, time.Duration(2+k*2)*time.Millisecond)
+	}
 	out, rerr := env.run(context.Background())
 	tag := fmt.Sprintf("%s proto=%s method=%s e2e=%d", id, proto, method, params.E2eQueries)
 	if rerr != nil {
